@@ -341,3 +341,6 @@ def run(ctx: Ctx) -> None:
     ctx.run(rule_alias)
     ctx.run(rule_set_task)
     ctx.run(rule_sites)
+    from rules import C18
+
+    ctx.run(C18.rule_keys)  # transform keys behave identically for both spellings
